@@ -449,6 +449,18 @@ def _main(args=None):
     else:
         prof = ContextualProfile()
 
+    # Find the script before installing the profiler anywhere, so that a
+    # failed lookup leaves nothing behind
+    if module:
+        script_file = find_module_script(options.script)
+    else:
+        script_file = find_script(options.script)
+        # Make sure the script's directory is on sys.path instead of
+        # just kernprof.py's.
+        sys.path.insert(0, os.path.dirname(script_file))
+    __file__ = script_file
+    __name__ = '__main__'
+
     # If line_profiler is installed, then overwrite the explicit decorator
     try:
         import line_profiler
@@ -464,15 +476,6 @@ def _main(args=None):
     if options.builtin:
         builtins.__dict__['profile'] = prof
 
-    if module:
-        script_file = find_module_script(options.script)
-    else:
-        script_file = find_script(options.script)
-        # Make sure the script's directory is on sys.path instead of
-        # just kernprof.py's.
-        sys.path.insert(0, os.path.dirname(script_file))
-    __file__ = script_file
-    __name__ = '__main__'
 
     original_stdout = sys.stdout
     if options.output_interval:
